@@ -428,9 +428,17 @@ func c13FileFaults(run *rt.Run, r *rt.Rand) {
 				errno = "EIO" // the Go runtime repeats a write that was interrupted for as long as it is interrupted
 			}
 		}
-		run.Progress("C13 write fault %d inject=write:error=%s:when=%s %+v", i, errno, when, w)
-		c := exec.Command("strace", append([]string{"-f", "-o", filepath.Join(base, "tr"), "-e", "trace=write",
-			"-e", fmt.Sprintf("inject=write:error=%s:when=%s", errno, when), child}, w.args(dir, ackp)...)...)
+		// the call that fails is a write, or - for a sink that makes its data durable before it acknowledges - one of
+		// the sync family (a library that never syncs never meets that fault: such a run is an ordinary run)
+		sysc := "write"
+		if cr.Intn(4) == 0 {
+			sysc = rt.Pick(cr, []string{"fsync", "fdatasync"})
+			errno = "EIO"
+			when = fmt.Sprint(cr.Range(1, 6))
+		}
+		run.Progress("C13 fault %d inject=%s:error=%s:when=%s %+v", i, sysc, errno, when, w)
+		c := exec.Command("strace", append([]string{"-f", "-o", filepath.Join(base, "tr"), "-e", "trace=write,fsync,fdatasync",
+			"-e", fmt.Sprintf("inject=%s:error=%s:when=%s", sysc, errno, when), child}, w.args(dir, ackp)...)...)
 		c.Env = append(os.Environ(), "GOMAXPROCS=1")
 		runChild(c, 90*time.Second)
 		a := readAck(ackp)
@@ -442,7 +450,7 @@ func c13FileFaults(run *rt.Run, r *rt.Rand) {
 		// all acknowledged present exactly once, whole; unacknowledged at most once
 		files, tear, size := readAll(dir, nil)
 		wit := func(extra string) any {
-			return map[string]any{"sink": "FileSink", "fault": fmt.Sprintf("write:error=%s:when=%s (k: the k-th write of a thread fails once; k+: every write from the k-th on)", errno, when), "workload": fmt.Sprintf("%+v", w), "acked": a.ackOrd, "called": a.order, "detail": extra}
+			return map[string]any{"sink": "FileSink", "fault": fmt.Sprintf("%s:error=%s:when=%s (k: the k-th such call of a thread fails once; k+: every one from the k-th on)", sysc, errno, when), "workload": fmt.Sprintf("%+v", w), "acked": a.ackOrd, "called": a.order, "detail": extra}
 		}
 		cnt := map[string]int{}
 		for nme, rs := range files {
@@ -463,7 +471,7 @@ func c13FileFaults(run *rt.Run, r *rt.Rand) {
 		}
 		run.Add("write_fault_runs", 1)
 		run.Add("write_fault_unacked", len(a.order)-len(a.acked))
-		run.Eval(fmt.Sprintf("fault|%s|%s|%v|%d", errno, when, w.TSOnly, w.MaxBytes))
+		run.Eval(fmt.Sprintf("fault|%s|%s|%s|%v|%d", sysc, errno, when, w.TSOnly, w.MaxBytes))
 		os.RemoveAll(base)
 	}
 }
